@@ -147,8 +147,9 @@ class World:
         self.d = self.w.daemon()
         # classes are made per world: the serializers' type hooks are process-global, and a class seen by an earlier world would
         # hide what registration does (or fails to do) for a class the process meets for the first time.
-        # variant "eq": all pool objects compare equal to anything (value equality must never stand in for identity)
-        ns = {"__eq__": (lambda a, b: True), "__ne__": (lambda a, b: False), "__hash__": (lambda a: 7)} if variant == "eq" else {}
+        # variant "eq": all pool objects compare equal to anything (value equality must never stand in for identity) and are falsy
+        # (an empty container-like object is as registered as any other)
+        ns = {"__eq__": (lambda a, b: True), "__ne__": (lambda a, b: False), "__hash__": (lambda a: 7), "__len__": (lambda a: 0)} if variant == "eq" else {}
         self.T = type("RegT", (targets.RegT,), ns)
         self.K = type("RegK", (targets.RegK,), {})
         self.pool = {"o1": self.T("o1"), "o2": self.T("o2"), "K": self.K, "S": targets.RegSlots("S")}
